@@ -194,6 +194,111 @@ def u_get_chunks(ctx):
     return eng.obligations
 
 
+@unit("C03", "kitty:Transmission.get_chunked")
+def u_get_chunked(ctx):
+    """get_chunked(): what the WHOLE method writes.  Whatever way it is put together - from get_chunks() (contract of the unit above:
+    a well-framed transmission of the whole payload) or by commands of its own - every command carries at most 4096 base64
+    characters, a multiple of 4 unless it is the last, the commands tile the base64 text of the payload in order, the first carries
+    the control keys, and m=1 ... m=0 is consistent.  The base64 text of n payload bytes has 4 * ceil(n / 3) characters."""
+    eng = ctx.engine("C03/Transmission.get_chunked", "C03")
+    eng.default_replay = "C03.chunk_boundaries"
+    st = State()
+    cs = ctx.ns("term_image._ctlseqs")
+    eng.genv["KITTY_TRANSMISSION"] = cs.d["KITTY_TRANSMISSION"]
+    fields = dataclass_fields(ctx, KITTY, "ControlData")
+    n = z3.Int("payload_bytes")
+    L = z3.Int("L")
+    st.pc += [n >= 0, L == 4 * ((n + 2) / 3)]
+    s_, v_, c_, r_, z_, f_ = z3.Ints("s v c r z f")
+    st.pc += [s_ >= 1, v_ >= 1, c_ >= 1, r_ >= 1, z3.Or(f_ == 24, f_ == 32)]
+    cvals = {"a": "T", "f": f_, "t": "d", "s": s_, "v": v_, "z": z_, "o": "z", "C": 1, "c": c_, "r": r_}
+    if set(fields) != set(cvals):
+        raise Unsupported(f"ControlData fields changed: {fields}")
+    control = st.new("ControlData", dict(cvals))
+    payload = st.new("bytesobj", {"len": n})
+    self_ = st.new("Transmission", {"control": control, "payload": payload})
+    eng.genv["asdict"] = Fn(lambda e, s, a, k: [(tuple((f, s.H(a[0])[f]) for f in fields), s)])
+    gcd = inline(ctx.fn(KITTY, "Transmission.get_control_data"), eng)
+    orig_call_method = eng.call_method
+
+    def call_method(recv, name, args, kwargs, s):
+        if isinstance(recv, tuple) and name == "items":
+            return [(recv, s)]
+        return orig_call_method(recv, name, args, kwargs, s)
+    eng.call_method = call_method
+    eng.methods[("Transmission", "get_control_data")] = lambda e, s, recv, a, k: e.call(gcd, (recv,), {}, s)
+    # encode(): the base64 text of the payload, as bytes; .decode() gives the same text as str
+    enc = st.new("b64bytes", {"len": L})
+    eng.methods[("Transmission", "encode")] = lambda e, s, recv, a, k: [(enc, s)]
+    eng.methods[("b64bytes", "decode")] = lambda e, s, recv, a, k: [(TS([Payload("b64", z3.IntVal(0), L)]), s)]
+    eng.genv["standard_b64encode"] = Fn(lambda e, s, a, k: [(enc, s)] if a[0] is payload else _unsup_k("standard_b64encode of something else"))
+    S0 = eng.closure_defaults(ctx.fn(KITTY, "Transmission.get_chunks"), State())["size"]
+    WHOLE_TX = tstr.Placement("kitty-well-framed-transmission", c_, r_, moves_cursor=False)
+    st.ghost["chunks_calls"] = []
+
+    def get_chunks(e, s, recv, a, k):
+        s = e.fork(s)
+        size = a[0] if a else k.get("size", S0)
+        s.ghost["chunks_calls"] = s.ghost["chunks_calls"] + [size]
+        return [((TS([WHOLE_TX]),), s)]
+    eng.methods[("Transmission", "get_chunks")] = get_chunks
+    st.env.update(self=self_)
+    fn = ctx.fn(KITTY, "Transmission.get_chunked")
+    for nm, dv in eng.closure_defaults(fn, State()).items():
+        st.env[nm] = dv
+    outs = run_function(eng, fn, st)
+    for kind, val, s in outs:
+        if kind == "raise":
+            eng.oblige(f"no-exception:{val.cls}", s, False, kind="raise")
+            continue
+        items = val.items if isinstance(val, TS) else None
+        if items is not None and len(items) == 1 and items[0] is WHOLE_TX:
+            # all of get_chunks(), nothing else: its contract carries over - provided the chunk size asked for is within the limit
+            sizes = s.ghost["chunks_calls"]
+            eng.oblige("whole-of-get_chunks()-with-a-chunk-size-within-the-4096-limit(multiple-of-4)", s,
+                       And(len(sizes) == 1, *[And(to_z3(x) <= 4096, to_z3(x) >= 4, to_z3(x) % 4 == 0) for x in sizes]), kind="post")
+            continue
+        if items is None or any(it is WHOLE_TX for it in items):
+            eng.oblige("result-is-the-transmission-and-nothing-else", s, False, kind="post")
+            continue
+        # commands of its own: interpreted one by one
+        cmds = []
+
+        def on_command(vt, which, keys):
+            cmds.append((which, list(keys)))
+        s2 = s.fork()
+        s2.ghost["vt"] = vt_new(z3.IntVal(0), z3.IntVal(0), z3.IntVal(0), z3.IntVal(10), z3.IntVal(10), on_command=on_command)
+        vt = VT(eng, s2, tag="chunked")
+        vt.feed(val)
+        ok_shape = vt.g["parser"] == "ground" and bool(cmds) and all(w == "apc" for w, _ in cmds) and len(vt.g["log"]) == len(cmds)
+        eng.oblige("made-of-complete-APC-commands-only", s2, ok_shape, kind="post")
+        if not ok_shape:
+            continue
+        covered = z3.IntVal(0)
+        goals = []
+        for i, (_, keys) in enumerate(cmds):
+            ctrl, pl = parse_kitty(keys)
+            if len(pl) != 1 or not isinstance(pl[0], Payload):
+                goals.append(z3.BoolVal(False))
+                break
+            p_ = pl[0]
+            size = p_.hi - p_.lo
+            m = ctrl.get("m")
+            last = i == len(cmds) - 1
+            ctl_keys = {k_ for k_ in ctrl if k_ != "m"}
+            same = set(ctl_keys) == set(cvals) and And(*[Eq(ctrl[k_], cvals[k_]) if not isinstance(cvals[k_], str) else ctrl[k_] == cvals[k_] for k_ in cvals if k_ in ctrl])
+            goals += [to_z3(p_.lo == covered), to_z3(And(size <= 4096, size >= 0, Or(size % 4 == 0, last))), to_z3(Eq(m, 0 if last else 1)),
+                      to_z3(same) if i == 0 else z3.BoolVal(not ctl_keys)]
+            covered = p_.hi
+        goals.append(to_z3(covered == L))
+        eng.oblige("own-commands:each<=4096-base64-characters(multiple-of-4-unless-last),tile-the-text,keys-on-the-first,m-flags-consistent", s2, z3.And(*goals), kind="post")
+    return eng.obligations
+
+
+def _unsup_k(msg):
+    raise Unsupported(msg)
+
+
 # ------------------------------------------------------------------------------------------- KittyImage._render_image
 def class_literals(ctx, rel, cls):
     """class-level simple assignments of a plain class (the key/value tables of kitty.py)"""
